@@ -186,7 +186,11 @@ class KillPoints(Facet):
         tmpdir = tempfile.mkdtemp(prefix="vk_c20k_")
         try:
             ref_path = os.path.join(tmpdir, "ref.csv")
-            header, rows, flags = reference_run(case, ref_path)
+            try:
+                header, rows, flags = reference_run(case, ref_path)
+            except Exception as e:  # noqa: BLE001
+                rec.fail(f"C20/recorder-raised-{type(e).__name__}", f"recording raised {e!r} for {({k: v for k, v in case.items() if k not in ('picks', 'tier')})}")
+                return
             full = parse(read_raw(ref_path))
             nreg = len(flags)
             idxs = range(nreg) if case["tier"] == "thorough" else sorted({p % nreg for p in case["picks"]})
